@@ -201,11 +201,16 @@ def run(chk: Check):
     chk.proof_stage(PROP_FILE)
     n = 120 if chk.tier == "quick" else 2000
     for i in range(n):
-        scn = ch.gen_scn(rng, sched="rr", restore=True, max_batches=rng.randint(3, 20))
+        # every third scenario has a convergence precision and zero-rounding losses: calls that stop early, then the calibration goes on
+        # (further calls, restores) - the scheduling rule counts batches over the whole life, early stops included
+        scn = ch.gen_scn(rng, sched="rr", restore=True, conv=(i % 3 == 2), max_batches=rng.randint(3, 20))
         with warnings.catch_warnings():
             warnings.simplefilter("ignore")
             lines, info = ch.run_real(scn)
         ncal = len([o for o in scn.ops if o[0] == "C"])
+        if scn.conv is not None:
+            stopped = info["cal"].current_batch_index < sum(o[1] for o in scn.ops if o[0] == "C")
+            chk.count("rr:convergence_precision:" + ("a_call_stopped_early" if stopped else "no_early_stop"))
         chk.case(scn_json(scn), ncal >= 2, {"lineup": [(ch.STUB_NAMES[c], b) for c, b, _, _ in scn.lineup], "ops": [o[:2] for o in scn.ops],
                                             "method_samp": np.asarray(info["cal"].method_samp).tolist()[:12]})
         chk.count(f"rr:n={len(scn.lineup)}"); chk.count("rr:with_restore" if any(o[0] == "R" for o in scn.ops) else "rr:live_only")
@@ -221,7 +226,7 @@ def run(chk: Check):
     # RL
     m = 40 if chk.tier == "quick" else 600
     for i in range(m):
-        scn = ch.gen_scn(rng, sched="rl", max_batches=6)
+        scn = ch.gen_scn(rng, sched="rl", max_batches=6, conv=(i % 5 == 3))
         scn.folder = False
         scn.ops = [("C", rng.randint(1, 7))]
         if rng.random() < 0.5:  # put a Halton into the supplied set (possibly twice)
